@@ -332,6 +332,10 @@ pub fn problem_verdict(e: Problem, w: &mut World, rep: &mut CaseReport) -> Verdi
             rep.inconclusive = Some(format!("watchdog (log: {})", path.display()));
             Verdict::Discard("watchdog".into())
         }
+        Problem::Db(crate::db::DbError::Proto(e)) => {
+            rep.inconclusive = Some(format!("harness: {}", e));
+            Verdict::Discard("harness error".into())
+        }
         Problem::Db(d) => Verdict::fail("worker-died", json!({"error": d.to_string(), "panics": w.db.panics, "log": w.db.log})),
         Problem::Unexpected(s) => Verdict::fail("unexpected-response", json!({"what": s, "log": w.db.log})),
     }
@@ -358,7 +362,7 @@ pub fn run(ctx: &Ctx) -> i32 {
     ];
     replay_known(ctx, &stats, &mut report, &replay);
     // exploration (not replay) stays outside the open class "a retired segment id is re-created in one lifetime"
-    KNOWN_ID_REUSE.store(ctx.open_any("layout.segment_id_reuse"), std::sync::atomic::Ordering::Relaxed);
+    KNOWN_ID_REUSE.store(ctx.open_any("layout.stale_cache_after_id_reuse"), std::sync::atomic::Ordering::Relaxed);
     replay_regressions(ctx, &stats, &mut report, &replay);
     let cases = ctx.tier.pick(160, 2400);
     if let Some(f) = explore(ctx, "layouts", || case_strategy(ctx), Explore { cases, max_shrink_iters: ctx.tier.pick(60, 300), lanes: ctx.lanes }, &stats, run_case) {
